@@ -416,7 +416,7 @@ pub fn run(tier: &str, seed: u64) -> i32 {
             "D-arms(heap types at field level / nested / generic argument / substituted parameter) x full switch cube ({n_vertices} vertices, every edge a transition)"
         ),
         &cases,
-        Duration::from_secs(if thorough { 1200 } else { 50 }),
+        Duration::from_secs(if thorough { 1200 } else { 150 }),
         |c| json!({"program": c.prog.to_source()}),
         check_case,
     );
